@@ -6,7 +6,8 @@ S = "Tracked(&mut *s)"
 TS = "Tracked(s): Tracked<&mut S>"
 
 R_REGISTER = Rule("B20", r"self\s*\.poll\s*\.registry\(\)\s*\.register\(&mut SourceFd\(&fd\), fd_token, Interest::READABLE\)",
-                  "self.poll.register_fd(fd, fd_token, %s)" % S, "mio registry().register(SourceFd, token, READABLE) -> stub", min_count=1)
+                  "self.poll.register_fd(fd, fd_token, %s)" % S, "mio registry().register(SourceFd, token, READABLE) -> stub")
+R_REGISTER2 = AppendArg("B20b", r"\.register\(", S, "mio Registry::register named explicitly -> stub over the ghost world")
 R_DEREG = Rule("B21", r"self\s*\.poll\s*\.registry\(\)\s*\.deregister\(&mut SourceFd\(&poll_entry\.fd\)\)",
                "self.poll.deregister_fd(poll_entry.fd, %s)" % S, "mio registry().deregister -> stub", min_count=1)
 R_POLL = AppendArg("B22", r"self\.poll\.poll\(", S, "epoll_wait stub over the ghost world", min_count=1)
@@ -34,7 +35,7 @@ add = Fn(F, ["impl OsIpcReceiverSet", "add"], ret="r", extra_params=TS,
                "(r is Err ==> final(s).taken == old(s).taken) && (r is Ok ==> final(s).taken == old(s).taken.insert(cell_val(&receiver.fd)) && final(s).open.contains(cell_val(&receiver.fd)))", ["C11"]),
     ],
     hints=[Hint("body:start", "proof { broadcast use axiom_token_key_model; }")],
-    rules=[R_REGISTER, AppendArg("B26", r"receiver\.consume_fd\(", S, "Cell::set stub that records the descriptor leaving its owning receiver", min_count=1)], safety_props=["C18", "C06"])
+    rules=[R_REGISTER, R_REGISTER2, AppendArg("B26", r"receiver\.consume_fd\(", S, "Cell::set stub that records the descriptor leaving its owning receiver", min_count=1)], safety_props=["C18", "C06"])
 
 WF0 = ("old(self).wf(s0) && pf0 == old(self).pollfds@ && rx0 == s0.rx")
 SUB = "(forall|t: Token| #[trigger] self.pollfds@.contains_key(t) ==> pf0.contains_key(t) && self.pollfds@[t] == pf0[t])"
@@ -109,7 +110,8 @@ class ValuesFor(Rule):
     """D32: `for &PollEntry { id: _, fd } in self.pollfds.values() {` -> `for entry__ in it: values_vec(&self.pollfds).iter() { let fd = entry__.fd;`
     (reference patterns in `for` are outside this Verus; HashMap::values has no usable iterator spec)."""
     def __init__(self):
-        Rule.__init__(self, "D32", r"for\s+&PollEntry\s*\{\s*id:\s*_,\s*fd\s*\}\s+in\s+self\.pollfds\.values\(\)\s*\{", "", "iteration over the map's values", min_count=1)
+        Rule.__init__(self, "D32", r"for\s+(?:&PollEntry\s*\{\s*id:\s*_,\s*fd\s*\}\s+in\s+self\.pollfds\.values\(\)|fd\s+in\s+self\.pollfds\.values\(\)\.map\(\|(\w+)\|\s*\1\.fd\))\s*\{",
+                      "", "iteration over the map's values (destructuring pattern, or `.map(|e| e.fd)`)", min_count=1)
 
     def custom(self, src, m, item, in_skip):
         from vf.gen import Edit
